@@ -825,7 +825,7 @@ func (v *Validator) typeOfHas(env *requestEnv, n ast.NodeTypeHas, caps capabilit
 	resultType := v.hasResultType(t, n.Value)
 
 	if _, isBool := resultType.(typeBool); isBool {
-		if varName := exprVarName(n.Arg); varName != "" {
+		if varName := exprCapKey(n.Arg); varName != "" {
 			if caps.has(capability{varName: varName, attr: n.Value}) {
 				resultType = typeTrue{}
 			}
@@ -833,7 +833,7 @@ func (v *Validator) typeOfHas(env *requestEnv, n ast.NodeTypeHas, caps capabilit
 	}
 
 	newCaps := caps
-	if varName := exprVarName(n.Arg); varName != "" {
+	if varName := exprCapKey(n.Arg); varName != "" {
 		newCaps = caps.add(capability{varName: varName, attr: n.Value})
 	}
 
@@ -898,7 +898,7 @@ func (v *Validator) typeOfAccess(env *requestEnv, n ast.NodeTypeAccess, caps cap
 
 	// Check if the attribute is optional and requires a `has` guard
 	if !attrType.required {
-		varName := exprVarName(n.Arg)
+		varName := exprCapKey(n.Arg)
 		if varName == "" || !caps.has(capability{varName: varName, attr: n.Value}) {
 			errs = append(errs, v.unsafeOptionalAccessError(env, t, n.Value, exprVarName(n.Arg)))
 		}
@@ -1054,10 +1054,10 @@ func (v *Validator) typeOfHasTag(env *requestEnv, n ast.NodeTypeHasTag, caps cap
 	}
 
 	newCaps := caps
-	if varName := exprVarName(n.Left); varName != "" {
+	if varName := exprCapKey(n.Left); varName != "" {
 		tagKey := tagCapabilityKey(n.Right)
 		if tagKey != "" {
-			newCaps = caps.add(capability{varName: varName, attr: types.String("__tag:" + tagKey)})
+			newCaps = caps.add(capability{varName: varName, attr: tagKey, tag: true})
 		}
 	}
 
@@ -1104,9 +1104,9 @@ func (v *Validator) typeOfGetTag(env *requestEnv, n ast.NodeTypeGetTag, caps cap
 		}
 	}
 
-	varName := exprVarName(n.Left)
+	varName := exprCapKey(n.Left)
 	tagKey := tagCapabilityKey(n.Right)
-	hasCapability := varName != "" && tagKey != "" && caps.has(capability{varName: varName, attr: types.String("__tag:" + tagKey)})
+	hasCapability := varName != "" && tagKey != "" && caps.has(capability{varName: varName, attr: tagKey, tag: true})
 
 	if hasCapability {
 		// Capability is only set by hasTag when entity supports tags
@@ -1418,6 +1418,22 @@ func exprVarName(n ast.IsNode) types.String {
 	}
 	return ""
 }
+
+// exprCapKey is exprVarName with the attribute names escaped: it identifies an access path
+// in a capability, where context["a.b"] and context.a.b must not be the same path.
+func exprCapKey(n ast.IsNode) types.String {
+	if nd, ok := n.(ast.NodeTypeVariable); ok {
+		return nd.Name
+	}
+	if nd, ok := n.(ast.NodeTypeAccess); ok {
+		if parent := exprCapKey(nd.Arg); parent != "" {
+			return parent + "." + types.String(capKeyEscaper.Replace(string(nd.Value)))
+		}
+	}
+	return ""
+}
+
+var capKeyEscaper = strings.NewReplacer("\\", "\\\\", ".", "\\.")
 
 func exprContainsVariable(n ast.IsNode, target types.String) bool {
 	found := false
